@@ -206,7 +206,7 @@ def run(ctx):
     ra = ctx.facts.local_aliases(rw)
     acts = [n for n in rc.live_nodes() for c in calls_in(n) if isinstance(c.func, ast.Call) and norm(c.func.func) == "getattr"
             and len(c.func.args) == 2 and norm(c.func.args[1]) == "action"]
-    ctx.require(len(acts) >= 2, "_register_watcher no longer applies `action` on two table paths")
+    ctx.require(acts, "_register_watcher no longer applies `action` to a watcher list")
     inst_ok = cls_ok = False
 
     def table_path(n_, tgt):
@@ -220,9 +220,19 @@ def run(ctx):
         if isinstance(root, ast.Name):
             roots = [d.ast.value for d in reaching_defs(rc, n_, root.id) if d.kind == "stmt" and isinstance(d.ast, ast.Assign)]
         return roots, list(reversed(idx))
+    # (node whose path conditions apply, expression of the list the action is applied to)
+    items = []
     for n_ in acts:
         c = [c for c in calls_in(n_) if isinstance(c.func, ast.Call)][0]
-        roots, idx = table_path(n_, c.func.args[0])
+        tgt = c.func.args[0]
+        if isinstance(tgt, ast.Name):
+            for d in reaching_defs(rc, n_, tgt.id):
+                if d.kind == "stmt" and isinstance(d.ast, ast.Assign):
+                    items.append((d, d.ast.value))
+        else:
+            items.append((n_, tgt))
+    for n_, expr in items:
+        roots, idx = table_path(n_, expr)
         conds = rc.conditions(n_)
         if cond_holds(conds, "what == 'value'", True) and cond_holds(conds, "self_.self is not None", True):
             if roots and all(ctx.facts.field_of(r, {}) == "private.watchers" for r in roots) and idx == ["parameter_name", "what"]:
